@@ -8,6 +8,7 @@ import (
 	"os/exec"
 	"sort"
 	"strings"
+	"sync"
 
 	"verif/harness/mon"
 )
@@ -59,6 +60,40 @@ func Child(k int) {
 	os.Exit(0)
 }
 
+// ChildConcurrent runs operation k from n goroutines released together, as the first thing the process does: the
+// first use of lazily initialised state is then concurrent. It prints the digest all goroutines agree on (or "differ")
+// in the place of the first value and a later sequential value in the place of the second.
+func ChildConcurrent(k, n int) {
+	ops := sortedLazy()
+	if k < 0 || k >= len(ops) {
+		fmt.Println("ERROR index out of range")
+		os.Exit(3)
+	}
+	out := make([]string, n)
+	start := make(chan struct{})
+	var wg sync.WaitGroup
+	for g := 0; g < n; g++ {
+		wg.Add(1)
+		go func(g int) {
+			defer wg.Done()
+			<-start
+			out[g] = digestOf(ops[k].fn)
+		}(g)
+	}
+	close(start)
+	wg.Wait()
+	a := out[0]
+	for _, o := range out {
+		if o != a {
+			a = "differ: " + out[0] + " / " + o
+			break
+		}
+	}
+	b := digestOf(ops[k].fn)
+	fmt.Printf("GEN %d|%s|%s|%s\n", k, ops[k].name, a, b)
+	os.Exit(0)
+}
+
 // Parent computes every operation in this (warm) process, starts one child per operation (childArgs + -which=k) and
 // compares. only == nil: every registered operation.
 func Parent(c *mon.Ctx, only func(name string) bool, childMode string) {
@@ -105,6 +140,10 @@ func Parent(c *mon.Ctx, only func(name string) bool, childMode string) {
 		c.Current("first operation of a process: " + op.name)
 		r := results[k]
 		if r.err != nil {
+			if strings.Contains(r.err.Error(), "exit status 66") { // exit code of the race runtime
+				c.Fail("first-op/"+op.name+"/data-race-in-the-first-use", "the race detector reported a data race in the child for %s; output tail: %s", op.name, tail(r.out, 900))
+				continue
+			}
 			c.Fail("first-op/"+op.name+"/child-crashed", "child for %s died: %v; output tail: %s", op.name, r.err, tail(r.out, 600))
 			continue
 		}
